@@ -1,3 +1,21 @@
 -- root of the library: imports every model and every property file
 import LalrpopModel.Model.Err
 import LalrpopModel.Props.C28
+-- lexer work package (C08 lexer part, C09, C10, C11)
+import LalrpopModel.Props.C09
+import LalrpopModel.Props.C09Prec
+import LalrpopModel.Props.C08Lex
+import LalrpopModel.Props.C10
+import LalrpopModel.Props.C11
+-- normalization passes: inlining (C14), macro expansion (C13)
+import LalrpopModel.Props.C14
+import LalrpopModel.Props.C13
+-- build layer (wpD): C20 determinism, C21/C22 build histories and crash consistency, C23 output paths
+import LalrpopModel.Props.C21
+import LalrpopModel.Props.C22
+import LalrpopModel.Props.C23
+import LalrpopModel.Props.C20
+-- text-level properties (wpE): C26 tokenizer / layout, C24 formatting flags, C25 hygiene
+import LalrpopModel.Props.C26
+import LalrpopModel.Props.C24
+import LalrpopModel.Props.C25
